@@ -42,7 +42,7 @@ def correspond(ctx, C):
     # documents: bytes never change; the parsed specification does not change for accepted, non-circular documents
     docs = raw_checked = spec_checked = 0
     if not rp:
-        for r in SP.run(ctx, C, "speccat", 128, 1280) + SP.run(ctx, C, "spec", 256, 4000) + SP.run(ctx, C, "specmut", 160, 4000) + SP.run(ctx, C, "specfix", 208, 208):
+        for r in SP.run(ctx, C, "speccat", 196, 1960) + SP.run(ctx, C, "spec", 256, 4000) + SP.run(ctx, C, "specmut", 160, 4000) + SP.run(ctx, C, "specfix", 208, 208):
             go, m = r["go"], r["m"] or {}
             if not isinstance(go, dict) or not go.get("loaded") or "crash" in go or "runs" not in go:
                 continue
